@@ -50,6 +50,7 @@ type JobResult struct {
 	Before    string `json:"before"`
 	After     string `json:"after"`
 	Extra     string `json:"extra,omitempty"`
+	Note      string `json:"note,omitempty"` // a finding of the job's own in-process probe (empty = none)
 	Archive64 []byte `json:"archive,omitempty"`
 	Millis    int64  `json:"ms"`
 }
